@@ -132,3 +132,121 @@ def view_matches(o, e, k=None):
         if o['TFLAG'] != exp:
             why.append('TFLAG %s expected %s' % (o['TFLAG'][:3], exp[:3]))
     return why
+
+
+# ----------------------------------------------------------------------------- lateral boundary (BOUNDARY) files
+EDGES = [('WEST', 1), ('EAST', 2), ('SOUTH', 3), ('NORTH', 4)]
+
+
+def gen_lb(rng, tier='quick', rollover=0.3):
+    u = L.gen_uamiv(rng, tier, rollover)
+    nx, ny, nz = rng.randint(2, 4), rng.randint(2, 4), rng.randint(1, 3)
+    nsteps = rng.randint(1, 3)
+    base = u['steps'][0]
+    steps = []
+    for t in range(nsteps):
+        bd, bh = L.yyjjj_add_hours(base['bdate'], base['bhour'], t)
+        ed, eh = L.yyjjj_add_hours(base['bdate'], base['bhour'], t + 1)
+        data = {}
+        for sp in u['names']:
+            for e, _ in EDGES:
+                ncell = ny if e in ('WEST', 'EAST') else nx
+                data[e + '_' + sp] = [[L.finite_word(rng) for _ in range(nz)] for _ in range(ncell)]
+        steps.append(dict(bdate=bd, bhour=bh, edate=ed, ehour=eh, data=data))
+    g = dict(u['grid'])
+    g['iproj'] = rng.choice([0, 1, 2])
+    return dict(fmt='lateral_boundary', name='BOUNDARY', note=u['note'], itzon=u['itzon'], names=u['names'], nx=nx, ny=ny, nz=nz,
+                grid=g, steps=steps)
+
+
+def lb_records(c):
+    g = c['grid']
+    s0, sl = c['steps'][0], c['steps'][-1]
+    fw = L.f32_word
+    out = []
+    out.append(L.char_words(c['name'], 10) + L.char_words(c['note'], 60) + [c['itzon'], len(c['names'])] +
+               [s0['bdate'], fw(float(s0['bhour'])), sl['edate'], fw(float(sl['ehour']))])
+    out.append([fw(g['plon']), fw(g['plat']), g['iutm'], fw(g['xorg']), fw(g['yorg']), fw(g['delx']), fw(g['dely']),
+                c['nx'], c['ny'], c['nz'], g['iproj'], g['istag'], fw(g['tlat1']), fw(g['tlat2']), fw(0.0)])
+    out.append([1, 1, c['nx'], c['ny']])
+    out.append([w for n in c['names'] for w in L.char_words(n, 10)])
+    for e, ei in EDGES:
+        nb = c['ny'] if e in ('WEST', 'EAST') else c['nx']
+        icell = {'WEST': 2, 'SOUTH': 2, 'EAST': c['nx'] - 1, 'NORTH': c['ny'] - 1}[e]
+        out.append([1, ei, nb, 0, 0, 0, 0] + [icell, 0, 0, 0] * (nb - 2) + [0, 0, 0, 0])
+    for s in c['steps']:
+        out.append([s['bdate'], fw(float(s['bhour'])), s['edate'], fw(float(s['ehour']))])
+        for sp in c['names']:
+            for e, ei in EDGES:
+                out.append([1] + L.char_words(sp, 10) + [ei] + [w for cell in s['data'][e + '_' + sp] for w in cell])
+    return out
+
+
+_records_met = records
+
+
+def records(c):  # noqa: F811
+    if c['fmt'] == 'lateral_boundary':
+        return lb_records(c)
+    return _records_met(c)
+
+
+_expected_met = expected_view
+
+
+def expected_view(c):  # noqa: F811
+    if c['fmt'] != 'lateral_boundary':
+        return _expected_met(c)
+    dims = dict(TSTEP=len(c['steps']), LAY=c['nz'], ROW=c['ny'], COL=c['nx'])
+    data = {}
+    for sp in c['names']:
+        for e, _ in EDGES:
+            k = e + '_' + sp
+            data[k] = [s['data'][k] for s in c['steps']]
+    tflag = [[(2000000 if s['bdate'] < 70000 else 1900000) + s['bdate'], s['bhour'] * 10000] for s in c['steps']]
+    return dict(dims=dims, data=data, TFLAG=tflag)
+
+
+_open_met = open_memmap
+
+
+def open_memmap(fmt, path, c):  # noqa: F811
+    if fmt == 'lateral_boundary':
+        from PseudoNetCDF.camxfiles import Memmaps
+        return Memmaps.lateral_boundary(path)
+    return _open_met(fmt, path, c)
+
+
+_write_met = write
+
+
+def write(fmt, f, path):  # noqa: F811
+    if fmt == 'lateral_boundary':
+        from PseudoNetCDF.camxfiles.lateral_boundary.Write import ncf2lateral_boundary
+        out = ncf2lateral_boundary(f, path)
+        if out is not None and hasattr(out, 'close'):
+            out.close()
+        return
+    return _write_met(fmt, f, path)
+
+
+_observe_met = observe
+
+
+def observe(f, fmt):  # noqa: F811
+    if fmt != 'lateral_boundary':
+        return _observe_met(f, fmt)
+    import numpy as np
+    o = dict(dims={k: len(v) for k, v in f.dimensions.items() if k in ('TSTEP', 'LAY', 'ROW', 'COL')})
+    data = {}
+    for v in f.variables.keys():
+        if v in ('TFLAG', 'ETFLAG'):
+            continue
+        a = np.asarray(f.variables[v][...], dtype='>f4')
+        data[v] = a.view('>u4').astype('int64').tolist()
+    o['data'] = data
+    if 'TFLAG' in f.variables.keys():
+        o['TFLAG'] = np.asarray(f.variables['TFLAG'][:, 0, :]).astype('int64').tolist()
+    if 'ETFLAG' in f.variables.keys():
+        o['ETFLAG'] = np.asarray(f.variables['ETFLAG'][:, 0, :]).astype('int64').tolist()
+    return o
